@@ -22,11 +22,49 @@ returns 1..len(buf) bytes that are the next bytes of the peer's stream, None, or
 write_to_fd accepts a prefix of the data it is given and reports its length.  The kernel copies
 bytes out of the view it is handed and never retains the view.
 """
+import builtins
 import errno
+import operator
 
+from tornado import iostream as _iostream
 from tornado.iostream import BaseIOStream
 
 FD = 7
+
+# ---- real buffers -------------------------------------------------------------------------
+# CrossHair replaces every bytearray(...) / memoryview(...) call made from traced code by its own
+# sequence models (SymbolicByteArray / SymbolicMemoryView); their slice assignment and comparison
+# mis-execute on the patterns iostream uses (IndexError / TypeError inside the model = engine
+# artefacts).  The names `bytearray` and `memoryview` in tornado.iostream's module namespace are
+# therefore bound to stand-ins that build the REAL CPython objects through a call the tracer does
+# not intercept.  tornado's code is unchanged; symbolic sizes reaching a real buffer operation
+# are realised by the engine (a fork per value - still exhaustive over the bounded domain).
+_real_bytearray = builtins.bytearray
+_real_memoryview = builtins.memoryview
+
+
+class BA(_real_bytearray):
+    """bytearray subclass: constructing it is not intercepted, instances are real bytearrays."""
+    __slots__ = ()
+
+
+class _MVMeta(type):
+    def __instancecheck__(cls, obj):
+        return isinstance(obj, _real_memoryview)
+
+    def __subclasscheck__(cls, sub):
+        return issubclass(sub, _real_memoryview)
+
+
+class MV(metaclass=_MVMeta):
+    """memoryview stand-in: MV(x) is a real memoryview, isinstance(v, MV) tests for memoryview."""
+
+    def __new__(cls, obj):
+        return operator.call(_real_memoryview, obj)
+
+
+_iostream.bytearray = BA
+_iostream.memoryview = MV
 
 
 def conc(x, lo, hi):
@@ -55,10 +93,11 @@ class Kernel:
         self.wcalls = 0
         self.wfail = wfail
         self.werrno = werrno
-        self.sent = bytearray()       # transport send log
+        self.sent = BA()              # transport send log
         self.read_calls = 0
         self.fd_closed = 0
         self.fd_error = None          # returned by get_fd_error (ERROR event)
+        self.end_after_script = False
 
     def exhausted(self):
         """No further bytes will ever be produced by read_from_fd."""
@@ -73,6 +112,25 @@ class FakeFdStream(BaseIOStream):
     def fileno(self):
         return FD
 
+    # connect-pending state (BaseIOStream has no connect(); IOStream.connect needs a socket).  These two
+    # methods mirror the state changes of IOStream.connect / IOStream._handle_connect (success case) so that
+    # BaseIOStream's own handling of _connecting / _connect_future (close, _signal_closed, write queueing,
+    # _handle_events) can be driven.
+    def fake_connect(self):
+        from tornado.concurrent import Future
+        self._connecting = True
+        self._connect_future = Future()
+        self._add_io_state(self.io_loop.WRITE)
+        return self._connect_future
+
+    def _handle_connect(self):
+        if self._connect_future is not None:
+            f = self._connect_future
+            self._connect_future = None
+            if not f.done():
+                f.set_result(self)
+        self._connecting = False
+
     def close_fd(self):
         self.k.fd_closed += 1
 
@@ -84,6 +142,8 @@ class FakeFdStream(BaseIOStream):
         assert k.fd_closed == 0, "read_from_fd on a closed fd"
         k.read_calls += 1
         remaining = k.eofpos - k.rpos
+        if k.end_after_script and k.ri >= len(k.rscript):
+            remaining = 0              # the peer's stream ends right after the scripted arrivals
         if remaining <= 0:
             k.end_seen += 1
             if k.cause == 1:
